@@ -2647,7 +2647,9 @@ save_ed_buffer (object_t * who)
           fname = stmp->u.string;
           if (*fname == '/')
             fname++;
-          dowrite (1, P_LASTLN, fname, 0);
+          /* like every path a master hands back to check_valid_path(): never outside the mudlib */
+          if (legal_path (fname))
+            dowrite (1, P_LASTLN, fname, 0);
         }
     }
   free_ed_buffer (who);
